@@ -55,7 +55,7 @@ def meta(tier):
                 '(unique / duplicated / missing file, same directory twice, file included twice, self-include, nested include '
                 'across directories); non-trivial = split whose moved block is non-empty and whose program mentions a label; '
                 'states = distinct (program, cut) reference states',
-        'bounds': {'alphabet': [R.render(u).strip().replace('\n', ' / ') for u in sigma(0)], 'length': 4 if q else 5,
+        'bounds': {'alphabet': [R.render(u).strip().replace('\n', ' / ') for u in sigma(0)], 'length': '4 (all units)' if q else '4 (all units), 5 (9 core units)',
                    'cuts': 'all 0<=i<j<=L, nested all i<=k<l<=j (quick: nested only for L<=3)'},
         'assumptions': ['reference model: mc/refasm.py', 'a conditional chain is never split across files (units are whole chains)'],
         'floors': {'evaluations': 1000, 'nontrivial': 100, 'statuses': ['OK', 'REJECT'],
@@ -75,9 +75,12 @@ def shard(acc, tier, idx, n):
     q = tier == 'quick'
     L = 4 if q else 5
     tail = [('label', 'G9'), ('data', 1, [0xEE])]
+    CORE_UNITS = {0, 2, 3, 4, 5, 6, 8, 9, 10}
     for h in histories(list(range(NSYM)), L, idx, n):
         if len(h) == 0:
             continue
+        if not q and len(h) == L and not all(x in CORE_UNITS for x in h):
+            continue        # thorough tier: the deepest level only over the 9 core units
         units = [sigma(i)[j] for i, j in enumerate(h)]
         whole = {'main.asm': flat(units) + tail}
         ref_whole = R.assemble(PARAMS, whole)
@@ -114,7 +117,7 @@ def shard(acc, tier, idx, n):
                         m = judge_equal(spec, [out, out_whole])
                         if m:
                             acc.violation(cases, spec, m, [out, out_whole])
-                        acc.judge(clause='differential', nontrivial_key=('d', h, i, j))
+                        acc.judge(clause='differential')     # (same executions as the split judgement: not counted again as a distinct case)
     placements(acc, idx, n)
 
 
